@@ -611,3 +611,28 @@ _ADDED4 = {
 }
 for _k, _v in _ADDED4.items():
     DOC[_k]['level'] += ' ' + _v
+
+# coverage added after the fifth round of seeded changes
+_ADDED5 = {
+    'C01': 'Names are compared under the library\'s own (upper-case) rule, with pairs of names that only one of the two case mappings identifies.',
+    'C02': 'More ways in: SetOriginalTokens, a parser value that no constructor made, operator words delivered as Symbol tokens in any letter case; a throw-away parser\'s constants are scribbled on by the caller after every segment.',
+    'C03': 'Values whose host kind is not the variant\'s native one (int32, uint, uint32) and arrays grown by an indexed write as variable values.',
+    'C04': 'TokenizeBufferToStrings / TokenizeStreamToStrings must give the values of the tokens the other entry points give.',
+    'C05': 'Also: the constructors that take a text or tokens, default variables replaced / removed / cleared between evaluations (the new calculator is brought to the specified state, not through the same history), CSV dialects that follow one another on one tokenizer (also with separators beyond the configured range).',
+    'C06': 'The sign of a zero result is compared as well; host oracles for the unary operators and for pairs of time spans, date-times (any zone, before 1970 with a fraction), booleans and strings; indexing into texts that are not well-formed UTF-8.',
+    'C07': 'Values built from int32 / uint / uint32, date-times before 1970 with a fraction.',
+    'C08': 'The IEEE and rounding functions are compared with the host\'s math library at every numeric argument (exact halves, negative zero, infinities, 2^52 +- 0.5, int64 extremes); the argument list is a prefix of a longer list of the caller\'s whose rest must stay untouched; Date with arguments that cannot be converted.',
+    'C09': 'Also with the unify-numbers option on (there are no numbers in CSV).',
+    'C11': 'Also VT / FF and other control characters next to line breaks, multi-unread by extreme negative counts.',
+    'C12': 'Also keywords spelled with long s / dotless i across line breaks.',
+    'C13': 'The custom expression tokenizer also registers ".." with the Special type (class special, Lexer.SymType).',
+    'C14': 'Also quote states that no constructor made.',
+    'C15': 'The option setters are called in three different orders.',
+    'C16': 'Also the CSV symbol state with further line-end symbols, and symbols starting with - . / read through a tokenizer whose number and comment states meet them first.',
+    'C17': 'Also plain values (false, 0, "") as references and states of an uncomparable (function) type.',
+    'C18': 'Also: the same object added twice, CreateVariables on a collection of the caller\'s, missing names that contain a percent sign.',
+    'C19': 'Race part: the type-safe manager inside a shared calculator, the shared default function table, and per goroutine its own parser, CSV tokenizer, quote states and managers; an evaluation nested inside an evaluation of the same calculator (reent); arrays with null elements as operands of IN.',
+    'C20': 'Also a variant assigned to / set from itself and floating-point NaN in the equality matrix.',
+}
+for _k, _v in _ADDED5.items():
+    DOC[_k]['level'] += ' ' + _v
